@@ -893,12 +893,27 @@ func (x *Exec) applyContract(st *State, c *Contract, callee *types.Func, recv *V
 	}
 	// 2. snapshot for old()
 	pre := st.clone()
-	// 3. effects and frame
-	for _, ef := range c.Effects {
-		x.applyEffect(st, pre, ef, specPos, q)
-	}
+	// 3. frame
 	if !c.Pure {
-		x.havocModifies(st, c.Modifies)
+		if len(c.Modifies) == 0 && len(c.Effects) == 0 && !c.Trusted {
+			// no declared frame: the callee may write anything
+			x.havocHeap(st, "call "+q+" (no modifies clause)", nil)
+		} else {
+			x.havocModifies(st, c.Modifies)
+		}
+		if !c.Trusted {
+			// ghost state changed inside a verified callee (write hooks) must be
+			// declared in its modifies clause (checked by its ghostframe
+			// obligations); only those ghosts are forgotten here
+			for name, gt := range x.eng.cf.Ghosts {
+				if !c.modifiesGhost(name) {
+					continue
+				}
+				t := x.eng.typeByName(gt)
+				x.ghostGlobal(st, name, gt)
+				st.globals["ghost."+name] = x.freshValue(t, "ghost."+name)
+			}
+		}
 	}
 	// 3b. slice parameters written by the callee: fresh contents after the call
 	type wb struct {
@@ -926,6 +941,12 @@ func (x *Exec) applyContract(st *State, c *Contract, callee *types.Func, recv *V
 	for i, n := range resultNames(sig) {
 		st.names[n] = outs[i]
 	}
+	// 4b. effects (may mention the results and old())
+	x.oldStack = append(x.oldStack, pre)
+	for _, ef := range c.Effects {
+		x.applyEffect(st, st, ef, specPos, q)
+	}
+	x.oldStack = x.oldStack[:len(x.oldStack)-1]
 	// 5. assume postconditions
 	x.oldStack = append(x.oldStack, pre)
 	for _, en := range c.Ensures {
@@ -984,7 +1005,7 @@ func (x *Exec) havocModifies(st *State, mods []string) {
 		}
 	}
 	if all {
-		x.havocHeap(st, "modifies *", func(k string) bool { return strings.HasPrefix(k, "ghost.") && !contains(mods, "ghost.*") })
+		x.havocHeap(st, "modifies *", func(k string) bool { return strings.HasPrefix(k, "ghost.") })
 		return
 	}
 	match := func(k string) bool {
